@@ -127,6 +127,18 @@ CLAIMS = {
         'TensorFlow are not decided.',
    design='DESIGN.md section 4 C20; rules R-CONST, R-SIB.tf, R-TASK, R-ROW, R-OFFSET',
    technique='constant folding from source + cross-module constant comparison + reference-source comparison (installed TensorFlow)'),
+ 'C17': dict(
+   text='Static analysis (level "other"): decides the code-shape necessary conditions of the per-algorithm invariants: APFL '
+        'coefficients stored in the next client state pass clip(.,0,1) after the optimizer update on every path (and the clip '
+        'call is valid for the installed jax), client state is written only under the yielded client id into a copy of the table; '
+        'MimeLite aggregates the clipped delta whenever a clip norm is configured; the Agnostic EG update renormalises a clamped '
+        'vector by its own sum and shifts the window by [1:] + [newest]; HypCluster argmin / empty-cluster / index pairing; '
+        'ignore_grads_haiku filters grads and params with the same predicate and restores ignored parameters from the input. '
+        'Reports two known findings (unguarded data-dependent divisions in AgnosticFedAvg). The invariants as predicates on '
+        'values along histories are not decided.',
+   design='DESIGN.md section 4 C17; rules R-CLIP01, R-PARTICIPANT, R-CLIPNORM, R-SIMPLEX, R-DIV, R-HYP, R-IGNORE, R-API',
+   technique='must-pass-through provenance checks over reaching definitions + denominator/guard classification + installed-API check',
+   note='R-API imports the installed jax/numpy/haiku/optax packages (not fedjax) to inspect signatures.'),
  'C19': dict(
    text='Static analysis (level "other"): for each cache completion marker (a path whose existence skips work) every '
         'writer that can create it is shown, on all normal CFG paths, to write a distinct temp name and publish it by '
